@@ -25,6 +25,8 @@ type C14Config struct {
 	Out      string   `json:"out"`            // "", "-", "FILE", "MISSINGDIR"
 	// OutExists: the -o FILE already exists (with longer, unrelated content) before the run
 	OutExists bool `json:"out_exists,omitempty"`
+	// SelNames: the selector mentions something besides $ ($file, a global of the program)
+	SelNames bool `json:"sel_names,omitempty"`
 	Missing  int      `json:"missing"`        // index of a file argument that does not exist (-1: none)
 	Dir      int      `json:"dir"`            // index of a file argument that is a directory (-1: none)
 	UsesFile bool     `json:"uses_file"`      // the program prints $file
@@ -222,6 +224,11 @@ func c14Check(c *C14Config) string {
 		}
 	}
 	// (6) -r E P == BEGINFILE { $ = E } P
+	if c.SelNames && c14ExclSelectorScope {
+		// known finding KF-selector-scope: excluded by construction, counted by the caller
+		c14Excluded++
+		return ""
+	}
 	if len(c.Sels) == 1 && !c.HasBFEF && nInputs == 1 {
 		eq := "BEGINFILE { $ = " + c.Sels[0] + " }\n" + prog
 		alt := c.runCLI(c.ProgFile, c.Stdin, c.Out, eq, nil)
@@ -234,6 +241,11 @@ func c14Check(c *C14Config) string {
 	}
 	return ""
 }
+
+// KF-selector-scope: while the finding is open, oracle (6) is not applied to selectors that
+// mention anything besides $ (everything else about such configurations stays under test)
+var c14ExclSelectorScope bool
+var c14Excluded int
 
 func genC14(t *rapid.T) (*C14Config, []string) {
 	c := &C14Config{Missing: -1, Dir: -1}
@@ -314,6 +326,13 @@ func genC14(t *rapid.T) (*C14Config, []string) {
 			c.Sels = append(c.Sels, rapid.SampledFrom([]string{"$", "$.a", "$[0]", "$.items", "$.missing", "[$, 1]", "{k: $}"}).Draw(t, "sel"))
 		}
 	}
+	// a selector over more than $: the file name, a global the program sets in BEGIN
+	if len(c.Sels) == 0 && !c.HasBFEF && rapid.IntRange(0, 9).Draw(t, "selnames") == 0 {
+		c.Sels = []string{rapid.SampledFrom([]string{"$file", "[$, $file]", "c14g", "{k: c14g, v: $}"}).Draw(t, "namedsel")}
+		c.Prog = ast.BS("BEGIN { c14g = \"G\" }\n" + string(c.Prog))
+		c.SelNames = true
+		labels = append(labels, "selector-mentions-other-names")
+	}
 	c.ProgFile = rapid.Bool().Draw(t, "progfile")
 	c.Stdin = len(c.Files) == 1 && rapid.Bool().Draw(t, "stdin")
 	c.Out = rapid.SampledFrom([]string{"", "", "-", "-", "FILE", "FILE", "MISSINGDIR", "DEVFULL"}).Draw(t, "out")
@@ -379,10 +398,15 @@ func TestC14(t *testing.T) {
 		t.Fatalf("HARNESS-ERROR: the binary was not built")
 	}
 	excl.ArrayAlias = rec.KnownActive("KF-array-alias", false)
+	c14ExclSelectorScope = rec.KnownActive("KF-selector-scope", true)
 	rec.ReplayTier()
 	check(rec, "config-random", scale(500, 50000), func(rt *rapid.T) {
 		c, labels := genC14(rt)
+		before := c14Excluded
 		msg := c14Check(c)
+		if c14Excluded > before {
+			rec.Excluded("KF-selector-scope")
+		}
 		nt := false
 		for _, l := range labels {
 			if l == "nontrivial" {
